@@ -148,6 +148,9 @@ func checkLinearizable(rr *RunResult, timeout time.Duration) (res linResult) {
 			if isMgmt(op.Args) {
 				continue // replies of management commands are not judged
 			}
+			if touchesTTLKey(op.Args) {
+				continue // deadline-carrying keys are judged by ttlReplies (ttl.go)
+			}
 			if hasSelect {
 				find("*")
 				all = append(all, rec{op, []string{"*"}})
